@@ -42,11 +42,13 @@ VALID.append("program p8\n  type t8\n    real, pointer :: v(:)\n  end type t8\n 
 VALID.append("program p9\n  open (newunit = lun, file = 'f.dat')\nend program p9\n")
 # the same physical lines (character literal, code behind it, trailing comment) read again and
 # again in one process: nothing the tokeniser hands out may be shared between readers
+VALID.append("subroutine s11\n  print *, \"total:   \", f(a,   b)\n  x = 'a  b' // g( 1 )\nend subroutine s11\n")
+VALID.append("subroutine s11\n  print *, \"total: \", f(a, b)\n  x = 'a b' // g(1)\nend subroutine s11\n")
 VALID.append("subroutine s10(total)\n  print *, 'total is', total ! in metres\n  write (*, '(a)') 'x ! y', total ! it's\n"
              "  total = len('a''b') + 1 ! \"q\nend subroutine s10\n")
 VALID_F08_ONLY.add(6)
 
-LETTERS = ["c03", "c08", "v0", "v1", "v2", "v3", "v4", "v5", "v6", "v7", "i0", "i1", "i2", "i3", "i4", "i5", "i6"]
+LETTERS = ["c03", "c08", "v0", "v1", "v2", "v3", "v4", "v5", "v6", "v7", "v8", "v9", "i0", "i1", "i2", "i3", "i4", "i5", "i6"]
 
 
 def _table_names(txt):
@@ -186,12 +188,12 @@ def run_case(case):
 def cases(tier, seed, refs):
     out = []
     maxlen = 3 if tier != "thorough" else 4
-    finals = [("f2003", "v1"), ("f2008", "v0"), ("f2008", "v1"), ("f2003", "v2"), ("f2008", "i0"), ("f2003", "i2"), ("f2008", "v4"), ("f2003", "v4"), ("f2003", "v6"), ("f2003", "v5"), ("f2008", "v6"), ("f2003", "v6"), ("f2008", "v7"), ("f2003", "v7")]
+    finals = [("f2003", "v1"), ("f2008", "v0"), ("f2008", "v1"), ("f2003", "v2"), ("f2008", "i0"), ("f2003", "i2"), ("f2008", "v4"), ("f2003", "v4"), ("f2003", "v6"), ("f2003", "v5"), ("f2008", "v6"), ("f2003", "v6"), ("f2008", "v7"), ("f2003", "v7"), ("f2008", "v8"), ("f2003", "v8"), ("f2008", "v9"), ("f2003", "v9")]
     rng = random.Random(seed)
     k = 0
     for n in range(0, maxlen + 1):
         for h in itertools.product(LETTERS, repeat=n):
-            if n == 3 and tier != "thorough" and rng.random() > 0.35:
+            if n == 3 and tier != "thorough" and rng.random() > 0.25:
                 continue
             if n == 4 and rng.random() > 0.12:
                 continue
